@@ -220,6 +220,18 @@ def _breakdown(db, chk, m):
     after = [e for e in ev if e["kind"] in ("drop_duplicates", "filter", "drop-rows", "row-subset", "dropna", "groupby-agg", "concat") and e["line"] > [x for x in ev if x["kind"] == "join"][0]["line"]]
     chk.ob(rule, "no row of the merged table is removed, merged or duplicated afterwards", not after and R.rows == T.TRUE, where, found=[(e["kind"], e["line"]) for e in after], accepted="none",
            why="de-duplication collapses two critical edges with equal (event, type, duration): rows and durations no longer add up to the path")
+    # the classification is applied row by row by a function of the row alone
+    gb = m.func("CPGraph.get_critical_path_breakdown")
+    appl = [c for c in ast.walk(gb) if isinstance(c, ast.Call) and isinstance(c.func, ast.Attribute) and c.func.attr in ("apply", "map") and c.args and isinstance(c.args[0], ast.Name)]
+    for c in appl:
+        fname = c.args[0].id
+        fdef = m.functions.get(f"CPGraph.get_critical_path_breakdown.{fname}") or m.functions.get(fname)
+        if fdef is None:
+            chk.ob(rule, f"row-wise function {fname} resolved", None, m.loc(c), found=fname)
+            continue
+        st_ = H.rowwise_state(gb, fdef)
+        chk.ob(rule, f"row-wise function {fname}: the value for a row depends on that row alone (no container outside the call is written)", not st_, m.loc(fdef), found=st_ or "row-local",
+               accepted="a pure function of the row", why="a per-event cache filled by the first edge of an event gives every later edge of that event the first edge's class (a delay edge attributed to a kernel becomes compute-bound)")
     bb = R.col("bound_by")
     enum = m.enum_members("CPEdgeType")
     tbl = {"KERNEL_KERNEL_DELAY": "gpu_kernel_kernel_overhead", "KERNEL_LAUNCH_DELAY": "gpu_kernel_launch_overhead", "DEPENDENCY": "", "SYNC_DEPENDENCY": ""}
